@@ -1324,6 +1324,12 @@ func (e *Env) evalCall(n *ECall) SVal {
 		e.fail("len of %s", v.typ)
 	case "cap":
 		v := e.eval(n.Args[0])
+		if v.typ != nil {
+			if _, ok := v.typ.Underlying().(*types.Chan); ok {
+				vc.d.declFun("chancap", "(declare-fun chancap (Int) Int)")
+				return mathInt("(chancap " + v.t + ")")
+			}
+		}
 		return mathInt("(s-cap " + v.t + ")")
 	case "has":
 		m := e.eval(n.Args[0])
